@@ -177,8 +177,17 @@ HOSTS = [
     # the host every prior request (see build()) already points at: with port 80 the assignment keeps the destination
     # and changes at most scheme and path
     ("same-as-current", "old.example", "n:old.example"),
+    # RFC 3986 reg-names made of digits: every label is a legal [A-Za-z0-9_-]{1,63} label, so they are assignable and
+    # read back verbatim (the reference does not reinterpret short/decimal IPv4 spellings: same text = same host)
+    ("numeric-last-label", "printer.0", "n:printer.0"),
+    ("numeric-last-label", "127.1", "n:127.1"),
+    ("numeric-last-label", "2130706433", "n:2130706433"),
+    ("numeric-last-label", "a.b.c.1", "n:a.b.c.1"),
+    ("digit-labels", "1a.2-3.4b.example", "n:1a.2-3.4b.example"),
+    ("digit-labels", "9.example", "n:9.example"),
+    ("digit-labels", "0x7f.1z", "n:0x7f.1z"),
 ]
-QUICK_HOSTS = [0, 3, 4, 5, 8, 9, 10, 13, 14, 16]
+QUICK_HOSTS = [0, 3, 4, 5, 8, 9, 10, 13, 14, 16, 17, 18, 19, 21]
 
 
 def ports_for(default, other):
